@@ -23,6 +23,9 @@ def _colour_box(cr):
     cr.bounded_check(run_contract_enum, "plan_wire_colors-box", c12.plan_colors, args,
                      f"{len(args)} edge sets over 3 producers x 2 consumers x 2 signal names x merge / no merge, with and without a locked colour: "
                      "a colouring reported conflict-free separates competing producers (contract evaluated on the real function)")
+    nargs = c12.network_arg_sets(cr.tier)
+    cr.bounded_check(run_contract_enum, "network-ids-box", c12.network_ids, nargs,
+                     f"{len(nargs)} edge sets x colour maps: same relay network id iff same source entity and colour (contract evaluated on the real method)")
 
 
 def run(tier):
